@@ -223,6 +223,7 @@ def run(ctx):
             iv = None
         out.append(('int', rq()))
         if iv is not None:
+            out.append(('int', dict(rq(), **rnd.choice([dict(max_value=0), dict(min_value=0), dict(min_value=0, max_value=0)]))))
             out.append(('int', dict(rq(), min_value=iv, max_value=iv)))
             out.append(('int', dict(rq(), min_value=iv + 1)))
             out.append(('int', dict(rq(), max_value=iv - 1)))
@@ -237,6 +238,9 @@ def run(ctx):
             fv = None
         out.append(('float', rq()))
         if fv is not None and not math.isnan(fv):
+            # bounds that are exactly zero (falsy) must be honoured like any other bound
+            zb = rnd.choice([dict(max_value=0), dict(max_value=0.0), dict(min_value=0), dict(min_value=0.0), dict(min_value=0, max_value=0)])
+            out.append(('float', dict(rq(), **zb)))
             out.append(('float', dict(rq(), min_value=fv, max_value=fv)))
             if not math.isinf(fv):
                 out.append(('float', dict(rq(), min_value=math.nextafter(fv, math.inf))))
